@@ -12,6 +12,7 @@ import PicoSVG.Spec.Pico
 import PicoSVG.Proofs.Round
 import PicoSVG.Proofs.PathForm
 import Mathlib.Algebra.Order.Field.Basic
+import PicoSVG.Proofs.CleanP
 
 set_option linter.unusedSectionVars false
 set_option linter.unusedVariables false
@@ -227,6 +228,23 @@ theorem rounding_idempotent (q : Rat) (n : Int) : F64.roundDec (F64.roundDec q n
 /-- … and moves no number by more than half a unit in the last place -/
 theorem rounding_half_unit (q : Rat) (n : Nat) :
     |F64.roundDec q (n : Int) - q| ≤ 1 / 2 / ((F64.pow10 n : Nat) : Rat) := F64.roundDec_err q n
+
+/-! #### nothing ignorable survives the discard passes -/
+
+/-- after `remove_processing_instructions` no processing instruction exists anywhere below the root -/
+theorem no_pi_survives (u : Nat) (t : String) (a : Attrs) (cs : List Node) :
+    Node.pi ∉ Node.flatList (Cleanup.removePIs (.elem u t a cs)).children := CleanP.no_pi_left u t a cs
+
+/-- after `remove_title_meta_desc` no title / desc / metadata element exists anywhere below the root -/
+theorem no_meta_survives (u : Nat) (t : String) (a : Attrs) (cs : List Node) (v : Nat) (t' : String) (a' : Attrs)
+    (k : List Node) (hm : Node.elem v t' a' k ∈ Node.flatList (Cleanup.removeTitleMetaDesc (.elem u t a cs)).children) :
+    Cleanup.metaTags.any (fun m => t' == Node.svgTag m) = false := CleanP.no_meta_left u t a cs v t' a' k hm
+
+/-- after `remove_nonsvg_content` every element that is left, at any depth, is in the svg (or xlink) namespace -/
+theorem no_foreign_survives (ng : Bool) (n : Node) (v : Nat) (t' : String) (a' : Attrs) (k : List Node)
+    (hm : Node.elem v t' a' k ∈ Node.flatList (Node.rewrite (Cleanup.nonSvgPass ng).f n)) :
+    Cleanup.goodNs ng t' = true := CleanP.no_foreign_left ng n v t' a' k hm
+
 
 /-! #### tie to the source -/
 theorem gen_inheritable : Gen.inheritableAttrib =
